@@ -74,8 +74,11 @@ AnalyseOut(ev) ==
        cross |-> lat /\ HasCrossing(P), or0 |-> lat => OrientOK(P, 0), or1 |-> lat => OrientOK(P, 1),
        touch |-> lat /\ Touching(P),
        far |-> IF lat THEN {k \in 1..Len(P) : \E i \in 1..Len(P[k]) :
+                              \* m = 1: farther than 2 units; scaled rectilinear input: a lattice vertex must lie ON an input edge;
+                              \* scaled general-position input: farther than 1 lattice unit (= m >= 3 units) is certainly farther than 2 units
                               \A j \in 1..Len(cs.ein) : IF EmbM1(cs.emb) THEN FarSeg(P[k][i], cs.ein[j][1], cs.ein[j][2], 2)
-                                                        ELSE ~OnSeg(cs.ein[j][1], cs.ein[j][2], P[k][i])} ELSE {},
+                                                        ELSE IF cs.rect THEN ~OnSeg(cs.ein[j][1], cs.ein[j][2], P[k][i])
+                                                        ELSE FarSeg(P[k][i], cs.ein[j][1], cs.ein[j][2], 1)} ELSE {},
        offxy |-> lat /\ \E k \in 1..Len(P) : \E i \in 1..Len(P[k]) : P[k][i][1] \notin cs.xs \/ P[k][i][2] \notin cs.ys,
        area2 |-> IF lat THEN Area2Set(P) ELSE 0 ]
 
